@@ -63,7 +63,7 @@ class Budget(Exception):
 
 
 class Outcome:
-    __slots__ = ('kind', 'val', 'note', 'definite', 'mayraise')
+    __slots__ = ('kind', 'val', 'note', 'definite', 'mayraise', 'bdef')
     # kind: ret | raise ; definite: reached through decisions that are all statically known and without passing a
     # call that may raise on a runtime (shape/length/numeric) condition
 
@@ -71,6 +71,7 @@ class Outcome:
         self.kind = kind
         self.val = val
         self.note = note
+        self.bdef = definite              # all branch decisions on the path statically known
         self.definite = definite and not mayraise
         self.mayraise = mayraise
 
@@ -1126,9 +1127,11 @@ def verdict(op, L, R, exp, ocs):
     known, no call that may raise on a runtime condition passed)."""
     rets = [o for o in ocs if o.kind == 'ret' and o.val.kind != 'notimpl']
     raises = [o for o in ocs if o.kind == 'raise']
-    if rets and not raises and not any(o.mayraise for o in rets) and len({(o.val.key(), o.note) for o in rets}) == 1:
-        # every path returns the same abstract value and nothing on the way can raise: definite
-        rets = [Outcome('ret', rets[0].val, rets[0].note, True, False)]
+    if rets and len({(o.val.key(), o.note) for o in rets}) == 1:
+        # every returning path returns the same abstract value: which branch was taken does not matter for WHAT is
+        # returned; it is definite that a value is returned only if, in addition, nothing on the way can raise
+        mr = bool(raises) or any(o.mayraise for o in rets)
+        rets = [Outcome('ret', rets[0].val, rets[0].note, True, mr)]
     kind = exp[0]
     if kind == 'unspec':
         return 'info', 'unspecified pairing: ' + exp[-1]
@@ -1157,8 +1160,9 @@ def verdict(op, L, R, exp, ocs):
     good_rets = [o for o in rets if not is_bad_value(o)]
     if kind == 'obj':
         want = exp[1]
-        wrong = sorted({describe(o) for o in def_rets if not is_bad_value(o) and not (o.val.kind == 'obj' and o.val.cls == want)
-                        and o.val.kind not in ('top',)})
+        # a wrong result class does not become right because an earlier kernel call might raise: branch-definite suffices
+        wrong = sorted({describe(o) for o in rets if o.bdef and not is_bad_value(o) and not (o.val.kind == 'obj' and o.val.cls == want)
+                        and o.val.kind not in ('top', 'value')})
         if wrong:
             return 'violation', 'documented result class %s, but returns %s' % (want, '; '.join(wrong))
         if any(o.val.kind == 'obj' and o.val.cls == want for o in good_rets):
